@@ -9,7 +9,11 @@ use arc_swap::ArcSwapOption;
 use std::collections::BTreeMap;
 use std::iter::repeat;
 use std::ops::Deref;
+#[cfg(not(kaj_rsass_verif))]
 use std::sync::{Arc, LazyLock, Mutex};
+
+#[cfg(kaj_rsass_verif)]
+use rsass_verif_sync::{Arc, LazyLock, Mutex};
 
 /// A static or dynamic scope referece.
 ///
